@@ -434,16 +434,43 @@ def boundary_case(rng, d):
     return {"kind": "boundary", "sink": rand_sink(rng), "rt": 0, "ops": ops}
 
 
-def string_case(rng, n, pre):
+def string_case(rng, n, pre, follow=None):
     ops = []
     if pre:
         ops.append(["w", ["s", "x" * pre]])
     ops.append(["w", ["fill", 97 + rng.below(26), n]])
-    ops.append(["w", ["i", "u8", 255]])
+    follow = rng.below(5) if follow is None else follow
+    if follow == 0:
+        ops.append(["w", ["i", "u8", 255]])
+    elif follow == 1:
+        ops.append(["c", 33 + rng.below(90)])          # a single byte through write_char
+    elif follow == 2:
+        ops.append(["w", ["i", "u8", rng.below(10)]])  # a single byte through write_bytes
+    elif follow == 3:
+        ops += [["c", 32], ["w", ["i", "i64", -rng.range(1, 10 ** 18)]]]
+    # follow == 4: nothing, the drop delivers the tail
     if rng.chance(1, 2):
         ops.append(["f"])
         ops.append(["c", 10])
     return {"kind": "bigstring", "sink": rand_sink(rng), "rt": 0, "ops": ops}
+
+
+def exact_fill_case(rng, d, how):
+    """bring the buffer to B-d bytes with ONE piece (how: 0 string, 1 flushed prefix + string), then d+2 single-byte
+    pieces (chars and one-digit integers alternately chosen) so that one of them takes the last free byte and the
+    next one meets a completely full buffer"""
+    B = BUF[0]
+    ops = []
+    if how == 1:
+        ops += [["w", ["i", "u16", 7]], ["f"]]
+    ops.append(["w", ["fill", 97 + rng.below(26), B - d]])
+    for _ in range(d + 2):
+        if rng.chance(1, 2):
+            ops.append(["c", 33 + rng.below(90)])
+        else:
+            ops.append(["w", ["i", "u8", rng.below(10)]])
+    ops.append(["w", ["i", "i32", -12345]])
+    return {"kind": "boundary", "sink": rand_sink(rng), "rt": 0, "ops": ops}
 
 
 def generate(rng, tier):
@@ -496,6 +523,14 @@ def generate(rng, tier):
     for n in lens:
         for pre in ([0, 3] if quick else [0, 1, 3, 45]):
             cases.append(string_case(rng.fork("str%d/%d" % (n, pre)), n, pre))
+    # exact multiples of BUF followed by every kind of next piece (a full buffer met by a 1-byte piece)
+    for n in ([B, 2 * B] if quick else [B, 2 * B, 3 * B]):
+        for follow in ([1, 2] if quick and n > B else range(5)):
+            cases.append(string_case(rng.fork("strx%d/%d" % (n, follow)), n, 0, follow))
+    # 4b. the last free bytes taken one at a time
+    for d in ([0, 1, 2] if quick else range(0, 6)):
+        for how in ((d % 2,) if quick else (0, 1)):
+            cases.append(exact_fill_case(rng.fork("ef%d/%d" % (d, how)), d, how))
     if quick:
         cases.append(string_case(rng.fork("str2b3"), 2 * B + 3, 1))
     rng.shuffle(cases)   # spread the expensive cases over the batch files
